@@ -8,8 +8,10 @@
 (* to                                                                                                         *)
 (*    src, dst   site of the transceiver the list starts / ends with (0 if it is no transceiver)              *)
 (*    sites      the ROADMs crossed, in order                                                                 *)
-(*    hops       per ROADM-to-ROADM segment: its end sites, the generator identity of every fibre in it       *)
-(*               (code LineEl(a, b) of the arc the fibre was created for) and the fibre length it sums to     *)
+(*    hops       per ROADM-to-ROADM segment: its end sites, the generator identity of every element of it     *)
+(*               that the generator of the topology created (fibre spans, the amplifier of a fibre-less       *)
+(*               patch, shipped amplifiers / fused: code LineEl(a, b) of the arc it was created for;          *)
+(*               auto-inserted amplifiers carry no identity) and the fibre length the segment sums to         *)
 (*    nel/nuniq  number of elements / of distinct elements;  contig = 1 iff consecutive elements are          *)
 (*               connected by an edge of the designed network                                                 *)
 (* and the same for the reverse route.  Monitor-shaped: every event is consumed, `viol` accumulates           *)
@@ -41,8 +43,8 @@ ElementsFollowEdges(G, ob, tol) ==
   /\ \A k \in 1..Len(ob.hops) :
        LET h == ob.hops[k]
        IN  /\ h.a = ob.sites[k] /\ h.b = ob.sites[k + 1]
-           /\ h.fib # <<>>
-           /\ \A j \in 1..Len(h.fib) : h.fib[j] = LineEl(h.a, h.b)           \* only fibres of that very link
+           /\ h.ids # <<>>
+           /\ \A j \in 1..Len(h.ids) : h.ids[j] = LineEl(h.a, h.b)           \* only elements of that very link
            /\ <<h.a, h.b>> \in G.arcs => Within(h.len, G.len[<<h.a, h.b>>], tol)   \* all of them
 NoElementTwice(ob) == ob.nel = ob.nuniq
 
